@@ -35,6 +35,7 @@ type CallEvent struct {
 	Res    []Term
 	ResTys []types.Type
 	ArgTys []types.Type
+	Havoc  bool // loop-head marker: calls to these designators may have happened an unknown number of times
 	Seq    int
 }
 
